@@ -55,11 +55,25 @@ def configs(tier, seed):
             if n + dn >= 1:
                 out.append(_cfg('reformat', s, n, f, 'trunc', 'code', s2=s2, n2=n + dn, how=rng.choice(('partial', 'full', 'dtype'))))
     # arithmetic results stored with wrap into an `out` object of the operands' format: n_word-bit register
-    regs = [(True, 8, 0), (False, 8, 0), (True, 5, 2), (False, 13, 13), (True, 16, 8), (True, 26, 0)]
+    regs = [(True, 8, 0), (False, 8, 0), (True, 5, 2), (False, 13, 13), (True, 16, 8), (True, 26, 0),
+            (True, 32, 16), (True, 40, 20), (False, 33, 0), (True, 52, 20), (True, 64, 32), (False, 70, 10)]     # (products of 64 .. 140 bits)
     if tier == 'thorough':
         regs += C.pick([(s, n, f) for (s, n, f) in C.formats_core() if 0 <= f <= n and n <= 26], 60, rng)
     for (s, n, f) in regs:
         for op in ('add', 'sub', 'mul'):
+            if op == 'mul' and n > 40:
+                continue                  # (beyond 2^63 after scaling the float -> int64 cast of the real code is undefined: outside the model, see the open finding)
+            if op == 'mul' and n > 26:
+                # a symbolic x symbolic product of this width is beyond the solver: the second factor is a constant code per
+                # configuration (every first factor is still decided), chosen so that the raw product passes 2^63 and 2^64
+                lo, hi = SP.limits(s, n)
+                for yc in ((hi, (1 << (n - 2)) + 1) if tier == 'quick' else (hi, lo if s else hi - 1, (1 << (n - 2)) + 1, rng.randrange(lo, hi + 1))):
+                    if tier == 'quick' and f == 0:
+                        continue
+                    out.append(_cfg('register', s, n, f, 'trunc', 'code', op=op, ycode=yc))
+                for yc in ((1 << (n - 2), (1 << (n - 3)) + (1 << (n - 6))) if (n == 40 or tier != 'quick') else ()):
+                    out.append(_cfg('register', s, n, f, 'trunc', 'code', op=op, ycode=yc, nout=52))      # few significant bits: the product is a double
+                continue
             out.append(_cfg('register', s, n, f, 'trunc', 'code', op=op))
     return out
 
@@ -103,6 +117,8 @@ def inputs(cfg):
     lo, hi = SP.limits(s, n)
     if p == 'reformat':
         return {'a': dict(kind='int', lo=lo, hi=hi)}
+    if cfg.get('ycode') is not None:
+        return {'a': dict(kind='int', lo=lo, hi=hi), 'b': dict(kind='const', value=cfg['ycode'])}
     return {'a': dict(kind='int', lo=lo, hi=hi), 'b': dict(kind='int', lo=lo, hi=hi)}
 
 
@@ -172,6 +188,8 @@ def run(F, cfg, inp):
         return dict(val=O.snap(x.val), fmt=C.fmt_of(x))
     # operands are ordinary (saturating) objects holding in-range codes; only the destination register wraps
     x, y, out = F.Fxp(None, s, n, f), F.Fxp(None, s, n, f), mk()
+    if cfg.get('nout'):
+        out = F.Fxp(None, s, cfg['nout'], f, rounding=cfg['rounding'], overflow='wrap')      # a register wider than the operands
     x.set_val(inp['a'], raw=True)
     y.set_val(inp['b'], raw=True)
     fn = getattr(F.pkg, cfg['op'])
@@ -208,6 +226,10 @@ def post(cfg, inp, ob):
         exact = T.isub(a, b)
     else:
         exact = T.ishr(T.imul(a, b), f) if f >= 0 else T.ishl(T.imul(a, b), -f)      # trunc rounding == floor on codes? see note
+    if cfg.get('nout'):
+        n = cfg['nout']
+        lo_, hi_ = SP.limits(s, n)
+        inr = SP.AND(T.icmp(q, lo_, '>='), T.icmp(q, hi_, '<='))
     out = [('is_out', ob['is_out'] is True), ('in_range', inr),
            ('operands_unchanged', SP.AND(T.icmp(O.cells(ob['x'])[0], a, '=='), T.icmp(O.cells(ob['y'])[0], b, '==')))]
     if cfg['op'] == 'mul' and f > 0:
